@@ -21,6 +21,7 @@ import (
 // the library's own single verification.
 
 type c09Tx struct {
+	guard        *PackedGuarded
 	ex           *ed25519.ExpandedPublicKey // memo: an expanded key is an object callers keep and reuse
 	exTried      bool
 	pk, msg, sig []byte
@@ -112,7 +113,11 @@ func c09Pool(r *core.Run, g *Gen, n int) []c09Tx {
 	var txs []c09Tx
 	mix := t.W(4) // 0: honest default; 1: honest, mixed options; 2,3: crafted mix
 	add := func(pk, msg, sig []byte, o *ed25519.Options, kind string) {
-		tx := c09Tx{pk: pk, msg: msg, sig: sig, opts: o, kind: kind, cofactorless: c09Cofactorless(o)}
+		// key, message and signature of a transaction sit in one allocation (as fields of a parsed
+		// packet do): slices with spare capacity; the verifiers must leave the packet alone
+		pgd := NewPackedGuarded(pk, msg, sig)
+		pk, msg, sig = pgd.Part(0), pgd.Part(1), pgd.Part(2)
+		tx := c09Tx{pk: pk, msg: msg, sig: sig, opts: o, kind: kind, cofactorless: c09Cofactorless(o), guard: pgd}
 		var ok bool
 		pan, pmsg := Guard(func() { ok = ed25519.VerifyWithOptions(pk, msg, sig, o) })
 		if pan {
@@ -446,6 +451,12 @@ func runC09(e *Env, r *core.Run) {
 		_ = ti
 	}
 	r.Nontrivial = multi && crafted
+	for i := range txs {
+		if txs[i].guard != nil && !txs[i].guard.Intact() && len(r.Main.Fails()) == 0 {
+			r.Fail("caller-memory", "transaction-buffer-modified", "the buffer holding transaction %d (%s: key | gap | message | gap | signature | guard) was modified by verification", i, txs[i].kind)
+			break
+		}
+	}
 }
 
 func c09Batch(r *core.Run, e *Env, nd *c09Node, txs []c09Tx, chunk []int, decided [][]int, multi *bool) {
